@@ -13,7 +13,7 @@ using namespace ebusd;
 
 static int g_failures = 0;
 static void fail(const char* fmt, ...) {
-  if (g_failures++) return;
+  if (g_failures++ >= 4) return;
   va_list ap; va_start(ap, fmt); printf("REPRODUCED: "); vprintf(fmt, ap); printf("\n"); va_end(ap);
 }
 struct RecvEvent { result_t result; symbol_t symbol; ArbitrationState arb; };
@@ -27,6 +27,10 @@ class FakeDevice : public Device {
   result_t send(symbol_t value) override { sent.push_back(value); return sendResult; }
   result_t recv(unsigned int timeout, symbol_t* value, ArbitrationState* arbitrationState) override {
     lastTimeout = timeout;
+    if (echoMode && !sent.empty() && echoed < sent.size()) {   // echo of the symbol ebusd sent last
+      symbol_t v = sent[echoed++]; result_t er = echoResults.empty() ? RESULT_OK : echoResults.front(); if (!echoResults.empty()) echoResults.pop_front();
+      *value = v; *arbitrationState = as_none; return er;
+    }
     if (script.empty()) return RESULT_ERR_TIMEOUT;
     RecvEvent e = script.front(); script.pop_front();
     *value = e.symbol; *arbitrationState = e.arb; return e.result;
@@ -34,6 +38,7 @@ class FakeDevice : public Device {
   result_t startArbitration(symbol_t masterAddress) override { starts.push_back(masterAddress); m_arbitrating = masterAddress != SYN; return startResult; }
   bool isArbitrating() const override { return m_arbitrating; }
   bool cancelRunningArbitration(ArbitrationState* arbitrationState) override { m_arbitrating = false; return true; }
+  bool echoMode = false; size_t echoed = 0; std::deque<result_t> echoResults;
   std::deque<RecvEvent> script; std::vector<symbol_t> sent, starts; bool m_arbitrating; unsigned lastTimeout = 0;
   result_t sendResult = RESULT_OK, startResult = RESULT_OK;
 };
